@@ -2,6 +2,7 @@ import Driver.Util
 import MpcVerif.Model.Garble
 import MpcVerif.Model.GarbleHist
 import MpcVerif.Proofs.PoolGarble   -- core-only; holds the definitions GMem / GJob / garbleParams (C17)
+import MpcVerif.Model.GarbleBig
 
 namespace Drv.C01
 open Mpc Drv
@@ -137,9 +138,124 @@ def handleHist (nw nin nout gates evs : String) : String :=
     "|".intercalate outs.reverse
   | none => "bad-op"
 
+/-! ### Extreme circuits (`Model/GarbleBig.lean`)
+
+`c01x <full|local> <key/key..> <tape/tape..> <nw> <nin> <nout> <gates> <x,x,...> <samples/samples..>`:
+one circuit whose table labels / gates / wires sit on or beyond 2^16 / 2^20,
+garbled several times.  The result is canonical but not a dump.  `full`: `R`,
+the transmitted rows per gate kind and their total, running digests of all wire
+pairs (wire order), of all table rows (gate order, row count of every gate
+mixed in) and, per input, of all evaluated labels, plus the Compute bits -
+garbled and evaluated with Lean AES on the constant-stack loops (`garbleTR_eq`:
+equal to `Circuit.garble` for every circuit).  `local`: the row counts every
+garbling of the model has (`C01_rows_per_kind`, no hashing), the Compute bits,
+and the local step of the sampled gates on the real input pairs
+(`C01_garble_local`). -/
+
+def kindStr (f : Op → Nat) : String :=
+  s!"a{f .and}:o{f .or}:i{f .inv}:x{f .xor}:n{f .xnor}"
+
+/-- Loop of `parseGatesFast` over the bytes of the op line: gates so far, kind
+of the gate being read (`none` between gates), its finished fields `f0 f1` and
+their number, the number being read, whether it has a digit. -/
+def pgLoop (bs : ByteArray) (i : Nat) (acc : Array Gate) (op : Option Op) (f0 f1 nf cur : Nat) (dig : Bool) :
+    Option (Array Gate) :=
+  if h : i < bs.size then
+    let b := bs[i]
+    if b == 59 then          -- ';'
+      match op with
+      | some o => if dig && nf == 2 then pgLoop bs (i + 1) (acc.push ⟨o, f0, f1, cur⟩) none 0 0 0 0 false else none
+      | none => none
+    else if b == 46 then     -- '.'
+      if !dig then none
+      else if nf == 0 then pgLoop bs (i + 1) acc op cur f1 1 0 false
+      else if nf == 1 then pgLoop bs (i + 1) acc op f0 cur 2 0 false
+      else none
+    else if 48 ≤ b && b ≤ 57 then
+      if op.isSome then pgLoop bs (i + 1) acc op f0 f1 nf (cur * 10 + (b.toNat - 48)) true else none
+    else
+      match op, parseOp (Char.ofNat b.toNat) with
+      | none, some o => pgLoop bs (i + 1) acc (some o) 0 0 0 0 false
+      | _, _ => none
+  else
+    match op with
+    | some o => if dig && nf == 2 then some (acc.push ⟨o, f0, f1, cur⟩) else none
+    | none => none
+termination_by bs.size - i
+
+/-- `parseGates` in one pass over the bytes (op lines of 10^6 gates); same
+language: `<op><in0>.<in1>.<out>` joined by `;`, or `-`. -/
+def parseGatesFast (s : String) : Option (List Gate) :=
+  if s == "-" then some [] else
+  let bs := s.toUTF8
+  (pgLoop bs 0 (Array.mkEmpty (bs.size / 8)) none 0 0 0 0 false).map Array.toList
+
+def parseCircuitFast (nw nin nout gates : String) : Option Circuit := do
+  some { numWires := ← nw.toNat?, nIn := ← nin.toNat?, nOut := ← nout.toNat?, gates := ← parseGatesFast gates }
+
+/-- One sampled gate of a `local` case: `<gate index>:<a.l0 a.l1 b.l0 b.l1>`
+(the REAL pairs of the gate's input wires).  Prints the output pair and the
+rows the model's `garbleCore` gives with the tweak the model's counter has
+when the loop reaches that gate (`Circuit.localStep`, `C01_garble_local`). -/
+def localStepStr (H : Hash (BitVec 128)) (r : BitVec 128) (ga : Array Gate) (tw : Array Nat) (s : String) : String :=
+  match s.splitOn ":" with
+  | [gi, hex] =>
+    match gi.toNat?, Aes.bytesOfHex hex with
+    | some i, some b =>
+      if b.size != 64 || i ≥ ga.size then "bad-sample" else
+      let g := ga.getD i default
+      let a : WireL (BitVec 128) := ⟨label128 b 0, label128 b 16⟩
+      let bb : WireL (BitVec 128) := ⟨label128 b 32, label128 b 48⟩
+      let c := garbleCore H r g.op a bb (tw.getD i 0)
+      s!"{i}:{hex128 c.1.l0}{hex128 c.1.l1}:{String.join (c.2.map hex128)}"
+    | _, _ => "bad-sample"
+  | _ => "bad-sample"
+
+def extGarbling (mode : String) (c : Circuit) (ga : Array Gate) (tw : Array Nat) (xs : List (List Bool))
+    (cs : String) (key tape samples : String) : String :=
+  match Aes.bytesOfHex key, Aes.bytesOfHex tape with
+  | some key, some tape =>
+    match Aes.Cipher.new key with
+    | none => "garble-error"
+    | some ciph =>
+      if tape.size < 16 * (1 + c.nIn) then "garble-error" else
+      let H := aesHash ciph
+      let r := setS (label128 tape 0)
+      if mode == "local" then
+        -- no garbling of the whole circuit: row counts every garbling of the model has, local steps
+        let ss := if samples == "-" then [] else (samples.splitOn ",").map (localStepStr H r ga tw)
+        s!"r={hex128 r};rows={kindStr fun k => rowsOfKindSpec k c.gates};total={slabSize c.gates};c={cs};s=" ++
+          ",".intercalate ss
+      else
+      let inl := fun i => label128 tape (16 * (i + 1))
+      let G := c.garbleTR H r inl
+      let head := s!"r={hex128 G.r};rows={kindStr fun k => rowsOfKind k c.gates G.rows};" ++
+        s!"total={G.slab.length};wd={hex128 (digWires G.wires)};gd={hex128 (digRows G.rows)}"
+      let evs := xs.map fun x =>
+        match c.evalGarbled H G.rows (encodeInputsFast c G x) with
+        | .error _ => "eval-error"
+        | .ok out => s!"{hex128 (digLabels out)}:{bitsStr (c.computeFast x)}"
+      head ++ ";e=" ++ ",".intercalate evs
+  | _, _ => "bad-op"
+
+def handleExt (mode keys tapes nw nin nout gates xs samples : String) : String :=
+  match parseCircuitFast nw nin nout gates with
+  | some c =>
+    let xs := (xs.splitOn ",").map parseBits
+    let ga := c.gates.toArray
+    let tw := tweakPrefix c.gates
+    let cs := if mode == "local" then ",".intercalate (xs.map fun x => bitsStr (c.computeFast x)) else ""
+    let ks := keys.splitOn "/"
+    let ts := tapes.splitOn "/"
+    let ss := samples.splitOn "/"
+    if ks.length != ts.length || ks.length != ss.length then "bad-op" else
+    "|".intercalate ((ks.zip (ts.zip ss)).map fun (k, t, s) => extGarbling mode c ga tw xs cs k t s)
+  | none => "bad-op"
+
 def handleAll (args : List String) : String :=
   match args with
   | [nw, nin, nout, gates, evs] => handleHist nw nin nout gates evs
+  | [mode, keys, tapes, nw, nin, nout, gates, xs, samples] => handleExt mode keys tapes nw nin nout gates xs samples
   | _ => handle args
 
 end Drv.C01
